@@ -605,6 +605,11 @@ def kcoreness_centrality_bd(CIJ):
         CIJkcore, kn[k] = kcore_bd(CIJ, k)
         ss = (np.sum(CIJkcore, axis=0) + np.sum(CIJkcore, axis=1)) > 0
         coreness[ss] = k
+    # in+out degree reaches 2(N-1), so cores beyond k=N-1 can be non-empty
+    for k in range(N, 2 * N - 1):
+        CIJkcore, _ = kcore_bd(CIJ, k)
+        ss = (np.sum(CIJkcore, axis=0) + np.sum(CIJkcore, axis=1)) > 0
+        coreness[ss] = k
 
     return coreness, kn
 
